@@ -18,7 +18,7 @@ SHARD_TIMEOUT = {"quick": 900, "thorough": 3600}
 
 def gen_cases(tier, seed):
     rng = gen.rng_for(seed, "c03", tier)
-    n = 800 if tier == "quick" else 6000
+    n = 800 if tier == "quick" else 12000
     cases = []
     for k in range(n):
         cases.append({"pseed": int(rng.integers(2 ** 31)), "n_instr": int(rng.integers(3, 41)), "n_leaves": int(rng.integers(1, 7)),
